@@ -209,4 +209,60 @@ def families():
         out.append("    n = n + 1\n    sleep(10)\n")
         return "".join(out)
     F["called-from-main-loop:fan2"] = main_loop
+
+    # ---- other structure whose work is not decided by the length of a line: nesting inside re-parsed bodies, many
+    # signatures of one helper, deep call nesting inside one expression, helpers passed through several levels
+    def nested_blocks(d):
+        # a helper whose body nests d blocks (one blank per level: the white-space guard of F-C11-blank-run-cubic), three signatures
+        kinds = ["if v > {i}:", "for i{i} in range(2):", "while t < {i}:", "try:"]
+        out = [HEAD, "def g(v):\n t = 0\n"]
+        closers = []
+        for i in range(d):
+            k = kinds[i % 4]
+            out.append(" " * (i + 1) + k.replace("{i}", str(i)) + "\n")
+            if k == "try:":
+                closers.append((i + 1, "except Exception:\n" + " " * (i + 2) + "t = t + 1\n"))
+        out.append(" " * (d + 1) + "t = t + v\n")
+        for ind, text in reversed(closers):
+            out.append(" " * ind + text)
+        out.append(" return t\n")
+        out.append("a = g(7)\nb = g(2.5)\nc = g(True)\nmon.write(a)\n")
+        return "".join(out)
+    F["nested-blocks-in-helper"] = nested_blocks
+
+    def many_signatures(d):
+        labels = ["7", "2.5", "True", "\";\""]
+        out = [HEAD, "def g(a, b, c):\n    return a + b + c\n"]
+        for i in range(d * 2):
+            out.append(f"y{i} = g({labels[i % 4]}, {labels[(i // 4) % 4]}, {labels[(i // 16) % 4]})\n")
+        out.append("mon.write(y0)\n")
+        return "".join(out)
+    F["many-signatures-of-one-helper"] = many_signatures
+
+    def deep_call(d):
+        return HEAD + "def g(v):\n    return v + 1\ndef h(v):\n    return g(v) + g(v)\n" + "y = " + "h(" * d + "7" + ")" * d + "\nmon.write(y)\n"
+    F["deep-nested-call-expression"] = deep_call
+
+    def long_body(d):
+        body = "".join(f"    t = t + g(v + {i})\n" for i in range(d * 4))
+        return HEAD + "def g(v):\n    return v + 1\ndef h(v):\n    t = 0\n" + body + "    return t\n" + "a = h(7)\nb = h(2.5)\nc = h(True)\nmon.write(a)\n"
+    F["long-helper-body-three-signatures"] = long_body
+
+    def diamond(d):
+        # every level has two helpers, each calling both helpers of the level below (2^d paths, 2d functions)
+        out = [HEAD, "def a0(v):\n    return v + \";\"\ndef b0(v):\n    return \":\" + v\n"]
+        for k in range(1, d + 1):
+            out.append(f"def a{k}(v):\n    return a{k - 1}(v) + b{k - 1}(v) + v\n")
+            out.append(f"def b{k}(v):\n    return b{k - 1}(v) + a{k - 1}(v) + v\n")
+        out.append(f"y = a{d}(7)\nz = b{d}(2.5)\nmon.write(y)\n")
+        return "".join(out)
+    F["diamond-lattice"] = diamond
+
+    def list_params(d):
+        out = [HEAD, "xs = [1, 2, 3]\ndef f0(v):\n    return len(v) + 1\n"]
+        for k in range(1, d + 1):
+            out.append(f"def f{k}(v):\n    return f{k - 1}(v) + f{k - 1}(v)\n")
+        out.append(f"y = f{d}(xs)\nmon.write(y)\n")
+        return "".join(out)
+    F["list-parameter:fan2"] = list_params
     return F
